@@ -661,6 +661,11 @@ func (e *Engine) mk(vd *VD, addr atree.Address, limit uint32, depth int) (atree.
 			var km MV
 			if vd.K == "cmap" {
 				km = Str{"f" + strconv.Itoa(i)} // composite: fixed field set
+				if i == 1 && vd.N%11 == 5 {
+					// one composite in eleven has a field name too long to be stored inline: its key is a slab
+					// reference, which the shared compact form cannot hold (the map is then encoded like a plain one)
+					km = Str{strOf(vd.N, int(e.MaxMapKey)+3)}
+				}
 			} else {
 				km = e.key(vd.N*7 + uint64(i))
 			}
